@@ -577,7 +577,11 @@ var suspected = []struct{ key, what string; docs []string }{
 }
 
 func knownListed(key string) bool {
-	b, err := os.ReadFile("/verif/known_findings.txt")
+	home := os.Getenv("VERIF_HOME")
+	if home == "" {
+		home = "/verif"
+	}
+	b, err := os.ReadFile(home + "/known_findings.txt")
 	if err != nil {
 		return false
 	}
